@@ -166,7 +166,16 @@ def run_world(root, case, world_name):
                     fired = len(simfs.S.read_fired)
                     simfs.disarm()
                 runs = [[t[0], t[1]] for t in side.take()]
-                emit({"res": res, "runs": runs, "store": _store_dump(storage), "read_faults_fired": fired})
+                store = _store_dump(storage)
+                # an unrelated, ordinary top-level batch afterwards: whatever the evaluation left behind must not affect it
+                try:
+                    pv = mod.vprobe.call_batch([{"x": 41}, {"x": 42}], raise_first_exception=False)
+                    pm = mod.vprobe.memento(41)
+                    probe = ["ok", [_summ(v) for v in pv], None if pm is None else (pm.invocation_metadata.fn_reference_with_args.context_args or {})]
+                except Exception as e:  # noqa
+                    probe = ["exc", type(e).__name__, str(e)[:160]]
+                side.take()
+                emit({"res": res, "runs": runs, "store": store, "read_faults_fired": fired, "probe": probe})
         return body
     out = None
     if case["restart"] and case["backend"] != "memory":
@@ -188,6 +197,10 @@ def execute(case):
     finally:
         shutil.rmtree(ra, ignore_errors=True)
         shutil.rmtree(rb, ignore_errors=True)
+    for wn, W_ in (("batch", A), ("single", B)):
+        if W_.get("probe") is not None and calltree.jsonable(W_["probe"]) != ["ok", [["ok", ["probe", 41]], ["ok", ["probe", 42]]], {}]:
+            viol.append(core.violation("later-unrelated-call-affected", {"via": case["via"], "world": wn}, {"probe": W_["probe"]}))
+            break
     xs = case["xs"]
     slots = B["res"]["slots"]
     failing = [s for s in slots if s[0] == "exc"]
